@@ -119,11 +119,11 @@ func init() {
 			Spec{Kind: "i64", Ret: "errkind", Ignore: ign, IgnoreLHS: []string{"logID"}, ErrCalls: map[string]string{"li.sthGetter.GetSTH": "getterFails"}})},
 		{"LogSTHGetter.GetSTH", handlerKernel(sthgo, "LogSTHGetter.GetSTH", "logSTHGetterGetSTH", "(rootFails signFails : Bool) (sigLen : Int)", "ErrKind", "", "ErrKind.ok",
 			Spec{Kind: "i64", Ret: "errkind", Ignore: append([]string{"copy"}, ign...), IgnoreLHS: []string{"sth"},
-				ErrCalls: map[string]string{"getSignedLogRoot": "rootFails", "signV1TreeHead": "signFailsPending"},
+				ErrCalls: map[string]string{"getSignedLogRoot": "rootFails", "signV1TreeHead": "signFails"},
 				Repl:     map[string]string{"err != nil": "signFails", "len(sth.TreeHeadSignature.Signature)": "sigLen"}})},
 		{"getSignedLogRoot", handlerKernel(sthgo, "getSignedLogRoot", "getSignedLogRoot", "(quotaSet quotaBadType rpcFails slrNil rootBad : Bool) (hashLen : Int)", "ErrKind × Bool",
 			"let rpc_ := false\n  ", "(ErrKind.ok, rpc_)",
-			Spec{Kind: "i64", Ret: "errkind", Ignore: ign, IgnoreLHS: []string{"req", "req.ChargeTo", "quotaUser", "ok", "slr", "currentRoot"},
+			Spec{Kind: "i64", Ret: "errkind", StateVars: []string{"rpc_"}, Ignore: ign, IgnoreLHS: []string{"req", "req.ChargeTo", "quotaUser", "ok", "slr", "currentRoot"},
 				ErrCalls: map[string]string{"client.GetLatestSignedLogRoot": "rpcFails|rpc_ := true"},
 				InitCond: map[string]string{"q := ctx.Value(remoteQuotaCtxKey) ; q != nil": "quotaSet", "err := currentRoot.UnmarshalBinary(slr.GetLogRoot()) ; err != nil": "rootBad"},
 				Repl:     map[string]string{"!ok": "quotaBadType", "slr == nil": "slrNil", "len(currentRoot.RootHash)": "hashLen", "sha256.Size": "(32 : Int)"}})},
